@@ -141,6 +141,9 @@ mod svg;
 mod translate_scale;
 mod triangle;
 mod vec2;
+#[cfg(kurbo_verif)]
+#[doc(hidden)]
+pub mod verif_hooks;
 
 pub use crate::affine::Affine;
 pub use crate::arc::{Arc, ArcAppendIter};
